@@ -107,6 +107,10 @@ func (m *ModelConsensus) SetClient(c *rpc.Client) {
 func (m *ModelConsensus) Shutdown(context.Context) error        { return nil }
 func (m *ModelConsensus) Ready(context.Context) <-chan struct{} { return m.readyCh }
 
+// NeverReady makes Ready() a channel that never fires (a consensus component
+// that cannot find its cluster).
+func (m *ModelConsensus) NeverReady() { m.readyCh = make(chan struct{}) }
+
 func (m *ModelConsensus) LogPin(ctx context.Context, pin *api.Pin) error {
 	s := m.Shared
 	s.mu.Lock()
